@@ -659,3 +659,40 @@ package types
 // the environment built from definitions that passed the checks is ready
 //@ contract SanityChecksTypeDefinitions
 //@   ensures[C09] C09.defsEnvReady: result == nil ==> readyEnv(defNames(typesDefs, len(typesDefs)), defVals(typesDefs, len(typesDefs)))
+
+// ---------------------------------------------------------------------------------------------
+// C08: type equality. What is proved here is the one-step soundness of the judgement (two types judged equal have
+// matching head constructors, modes, shift modes and label sets), that the recursive comparisons pair the
+// corresponding components, and the memo discipline the coinductive argument rests on (the pair recorded as
+// "assumed equal" is exactly the pair under comparison, recorded before its unfolding is compared). Termination and
+// the transitive closure of the argument (bisimilarity) are not mechanised: see DESIGN.md.
+//@ macro labelsCovered(as []Option, bs []Option) bool = forall i int :: 0 <= i && i < len(as) ==> (exists j int :: 0 <= j && j < len(bs) && bs[j].Label == as[i].Label)
+//@ spec headOK(a SessionType, b SessionType) bool = a != nil && b != nil && tag(a) == tag(b) && (!is(a, UpType) && !is(a, DownType) ==> sameTag(modeOf(a), modeOf(b))) &&
+//@    (is(a, SelectLabelType) ==> len(SelectLabelType(a).Branches) == len(SelectLabelType(b).Branches) && labelsCovered(SelectLabelType(a).Branches, SelectLabelType(b).Branches)) &&
+//@    (is(a, BranchCaseType) ==> len(BranchCaseType(a).Branches) == len(BranchCaseType(b).Branches) && labelsCovered(BranchCaseType(a).Branches, BranchCaseType(b).Branches)) &&
+//@    (is(a, UpType) ==> sameTag(UpType(a).From, UpType(b).From) && sameTag(UpType(a).To, UpType(b).To)) &&
+//@    (is(a, DownType) ==> sameTag(DownType(a).From, DownType(b).From) && sameTag(DownType(a).To, DownType(b).To))
+//@ macro expandedOnce(t SessionType, env LabelledTypesEnv) SessionType = ite(is(t, LabelType), env[LabelType(t).Label].Type, t)
+
+//@ contract innerEqualType
+//@   ensures C08.head: result && !is(type1, LabelType) && !is(type2, LabelType) ==> headOK(type1, type2)
+//@   callsite C08.memoLookedUp types.innerEqualType#1: has(snapshots, bufstr[addrof(presentSnapshot)])
+//@   callsite C08.memoOnly types.innerEqualType#1: forall k string :: has(snapshots, k) ==> old(has(snapshots, k)) || k == bufstr[addrof(presentSnapshot)]
+//@   callsite C08.expandedL types.innerEqualType#1: is(type1, LabelType) ==> arg0 == labelledTypesEnv[LabelType(type1).Label].Type
+//@   callsite C08.expandedL2 types.innerEqualType#1: !is(type1, LabelType) ==> arg0 == type1
+//@   callsite C08.expandedR types.innerEqualType#1: is(type2, LabelType) ==> arg1 == labelledTypesEnv[LabelType(type2).Label].Type
+//@   callsite C08.expandedR2 types.innerEqualType#1: !is(type2, LabelType) ==> arg1 == type2
+//@   callsite C08.sendLeft types.innerEqualType#2: arg0 == SendType(type1).Left && arg1 == SendType(type2).Left
+//@   callsite C08.sendRight types.innerEqualType#3: arg0 == SendType(type1).Right && arg1 == SendType(type2).Right
+//@   callsite C08.recvLeft types.innerEqualType#4: arg0 == ReceiveType(type1).Left && arg1 == ReceiveType(type2).Left
+//@   callsite C08.recvRight types.innerEqualType#5: arg0 == ReceiveType(type1).Right && arg1 == ReceiveType(type2).Right
+//@   callsite C08.upCont types.innerEqualType#6: arg0 == UpType(type1).Continuation && arg1 == UpType(type2).Continuation
+//@   callsite C08.downCont types.innerEqualType#7: arg0 == DownType(type1).Continuation && arg1 == DownType(type2).Continuation
+//@   callsite C08.selBranches types.equalTypeBranch#1: arg0 == SelectLabelType(type1).Branches && arg1 == SelectLabelType(type2).Branches
+//@   callsite C08.braBranches types.equalTypeBranch#2: arg0 == BranchCaseType(type1).Branches && arg1 == BranchCaseType(type2).Branches
+//@ contract equalTypeBranch
+//@   ensures C08.branches: result ==> len(options1) == len(options2) && labelsCovered(options1, options2)
+//@   callsite C08.branchPair types.innerEqualType#1: exists i int, j int :: 0 <= i && i < len(options1) && 0 <= j && j < len(options2) && options1[i].Label == options2[j].Label && arg0 == options1[i].SessionType && arg1 == options2[j].SessionType
+//@   loop 1 invariant forall i int :: 0 <= i && i <= idx ==> (exists j int :: 0 <= j && j < len(options2) && options2[j].Label == options1[i].Label)
+//@ contract EqualType
+//@   ensures C08.top: result && !is(type1, LabelType) && !is(type2, LabelType) ==> headOK(type1, type2)
